@@ -183,7 +183,7 @@ var propImports = map[string][]string{
 	"C07": {"C01"},
 	"C16": {"C01"},
 	"C04": {"C01", "C02"},
-	"C05": {"C01"},
+	"C05": {"C01", "C03"},
 }
 
 func premiseTags(prop string) []string {
@@ -251,7 +251,10 @@ func (w *World) functionVCsT(fn *ssa.Function, prop string, prove map[string]boo
 					return res
 				}})
 		}
-		return vcs
+		lawClauses = nil // the comparator clauses are bounded; postconditions below are still proved by SMT
+		if len(postClauses) == 0 && !safe {
+			return vcs
+		}
 	}
 	// single execution: post + pre + safe
 	if len(postClauses) > 0 || safe {
